@@ -85,6 +85,19 @@ impl CompileState<'_> {
             fields.push((field_name.clone(), e));
         }
 
+        // Every field of the definition must be given a value: a struct value with a
+        // missing member makes a later field access fail at run time.
+        if let Some(missing) = struct_def
+            .iter()
+            .find(|def| !s.fields.iter().any(|(name, _)| name.inner == def.identifier.inner))
+        {
+            let note = format!(
+                "missing field `{}` in literal of `Struct {}`",
+                missing.identifier.inner, s.identifier
+            );
+            return Err(self.err(NotDefined(note, s.identifier.span)));
+        }
+
         Ok(thir::NamedStruct {
             identifier: s.identifier.clone(),
             fields,
